@@ -724,6 +724,7 @@ func (ndb *nodeDB) deleteVersionsTo(toVersion int64) error {
 		}
 	}
 	ndb.mtx.Unlock()
+	verifYield("prune:checked")
 
 	// Delete the legacy versions
 	if legacyLatestVersion >= first {
@@ -749,6 +750,7 @@ func (ndb *nodeDB) deleteVersionsTo(toVersion int64) error {
 			return err
 		}
 		ndb.resetFirstVersion(version + 1)
+		verifYield("prune:version-done")
 	}
 
 	return nil
